@@ -4,6 +4,7 @@ import re
 
 from sa.core import AnalysisError, norm
 from sa.pat import AnyOf, StatusIn
+from rules._shared import broadcast_prune_rules
 from sa import sqlmodel as sm
 from rules._shared import params_rewrite, check_rewrite_key
 
@@ -389,6 +390,9 @@ def check(c):
         c.ob('C19.shutdown', c.key(p, sd) + ' then flush then close', ok,
              c.where(p, sd), '')
 
+    # ---- cancel prunes queued broadcast inserts only on an exact match
+    broadcast_prune_rules(c, 'C19')
+
 
 DAO_NAME = 'CylcWorkflowDAO'
 
@@ -499,4 +503,16 @@ VARIANTS = [
      '{"key": self.KEY_STOP_TASK, "value": schd.pool.stop_task_id},',
      '{"key": self.KEY_STOP_TASK, "value": schd.stop_task},',
      'C19.rewrite-complete'),
+    ('prune-on-any-match', 'cylc/flow/workflow_db_mgr.py',
+     '''                    if any(insert[key] != broadcast_change[key]
+                           for key in ["point", "namespace", "key"]):''',
+     '''                    if not any(insert[key] == broadcast_change[key]
+                               for key in ["point", "namespace", "key"]):''',
+     'C19.broadcast-prune'),
+    ('benign-prune-not-all', 'cylc/flow/workflow_db_mgr.py',
+     '''                    if any(insert[key] != broadcast_change[key]
+                           for key in ["point", "namespace", "key"]):''',
+     '''                    if not all(insert[key] == broadcast_change[key]
+                               for key in ("key", "point", "namespace")):''',
+     None),
 ]
